@@ -2,11 +2,11 @@
    Only ExtrOcamlBasic is used: bool, option, unit, list, prod, sumbool, sumor
    map to their OCaml counterparts; nat, N, Z, positive stay inductive. *)
 From Coq Require Import Extraction ExtrOcamlBasic.
-From TW Require Import Bytes GenToken Lexer Ast Parser Floats Values Builtins Eval Render Api Positions Expr Text Template BuiltinSpec Wf TokenShape.
+From TW Require Import Bytes GenToken Lexer Ast Parser Floats Values Builtins Eval Render Api Positions Expr Text Template BuiltinSpec Wf TokenShape LexSpell.
 
 Extraction Language OCaml.
 Set Extraction KeepSingleton.
 
 Extraction "twmodel_ext.ml"
   tok_index all_toks
-  lex_all Z_to_dec parse_source decz f_of_bits f_to_bits evaluate_string render_program Z.add Z.mul Z.opp check_tokens contains lc render_expr sem show_sres call_builtin to_object text_spec plain print_template run_template run_history init_state step new_template builtin_spec value_utf8_ok wf_program tinv sok eol illT.
+  lex_all Z_to_dec parse_source decz f_of_bits f_to_bits evaluate_string render_program Z.add Z.mul Z.opp check_tokens contains lc render_expr sem show_sres call_builtin to_object text_spec plain print_template run_template run_history init_state step new_template builtin_spec value_utf8_ok wf_program tinv sok eol illT in_domain.
